@@ -196,6 +196,7 @@ _TUP = re.compile(r'^<<"([A-Z]+)"(?:, (.*))?>>$')
 
 def parse_tuple(line):
     """<<"ACCEPT", 3>>  /  <<"FAILCLAUSE", 3, 7, "P.calls", "key">>  ->  ("ACCEPT", [3])"""
+    line = re.sub(r"\s+>>$", ">>", re.sub(r"^<<\s+", "<<", line.strip()))
     m = _TUP.match(line)
     if not m:
         return None
@@ -208,7 +209,7 @@ def parse_tuple(line):
         return None
 
 
-_TUPSTART = re.compile(r'^<<"[A-Z]+"')
+_TUPSTART = re.compile(r'^<<\s*"[A-Z]+"')
 
 
 def tuples(res, tags=None):
